@@ -38,6 +38,21 @@ ARCH_VOCAB = [
 ]
 
 
+# three layers, three module names: a module of the FIRST layer offered to the third one, in either form
+ARCH_VOCAB3 = [
+    Sym("layer", "L1"),
+    Sym("layer", "L2"),
+    Sym("layer", "L3"),
+    Sym("containing_modules", "a"),
+    Sym("containing_modules", ["ba"]),
+    Sym("containing_modules", "c"),
+    Sym("containing_modules", ["c", "a"]),
+    Sym("containing_modules", ["ba", "c"]),
+    Sym("containing_modules", ["mod", "ba"]),
+]
+VOCABS = {"arch": ARCH_VOCAB, "arch3": ARCH_VOCAB3}
+
+
 def _mk_layered():
     from pytestarch import LayeredArchitecture
 
@@ -50,8 +65,8 @@ def _mk_layer_rule():
     return LayerRule()
 
 
-def arch_outcome(seq_or_len, prefix=()):
-    hist, expects, final, real, obj, aut = play(seq_or_len, ARCH_VOCAB, _mk_layered, LayeredArchitectureAutomaton, None, prefix=prefix)
+def arch_outcome(seq_or_len, prefix=(), vocab=None):
+    hist, expects, final, real, obj, aut = play(seq_or_len, vocab or ARCH_VOCAB, _mk_layered, LayeredArchitectureAutomaton, None, prefix=prefix)
     exp_pos = expects[0] if expects else None
     if real[0] == "RAISED":
         got = (real[1], "CONFIG" if real[2] == "ImproperlyConfigured" else real[2])
@@ -71,6 +86,13 @@ def arch_outcome(seq_or_len, prefix=()):
         if rendered != aut.render() or per_layer != spec_layers:
             return ("MISMATCH", aut.render(), rendered)
         return ("ACCEPTED",)
+    # a rejected call supplies nothing: the definition still lists exactly what the accepted calls supplied
+    try:
+        rendered = str(obj)
+    except Exception as e:  # noqa: BLE001
+        return ("MISMATCH", "render after the rejected call", type(e).__name__)
+    if rendered != aut.render():
+        return ("MISMATCH", f"after the rejected call #{got[0] + 1}: {aut.render()}", rendered)
     return ("REJECTED-AS-SPECIFIED",)
 
 
@@ -114,6 +136,8 @@ def instances(tier: str) -> list[dict]:
     out = []
     for first in range(len(ARCH_VOCAB)):
         out.append({"part": "arch", "first": first, "L": L})
+    for first in range(3):
+        out.append({"part": "arch3", "first": first, "L": 6 if tier == "quick" else 7})
     for first in range(len(LAYER_VOCAB)):
         out.append({"part": "rule", "first": first, "L": L})
     from vf.engine.xh import kernel_names
@@ -133,8 +157,14 @@ def work(inst: dict) -> dict:
         res = run_kernels("vf.kernels.k16", inst.get("tier", "quick"), [inst["name"]])
         res["label"] = f"kernel {inst['name']}"
         return res
-    vocab = ARCH_VOCAB if inst["part"] == "arch" else LAYER_VOCAB
-    outcome = arch_outcome if inst["part"] == "arch" else rule_outcome
+    vocab = VOCABS.get(inst["part"], LAYER_VOCAB)
+    if inst["part"] in VOCABS:
+
+        def outcome(n, pre):
+            return arch_outcome(n, pre, vocab)
+
+    else:
+        outcome = rule_outcome
     prefix = (vocab[inst["first"]],)
     Ls = inst["L"] - 1
 
@@ -182,7 +212,7 @@ def replay_detail(payload: dict):
 
         return replay_kernel(payload)
     seq = [Sym(n, a) for n, a in payload["history"]]
-    o = arch_outcome(seq) if payload["kind"] == "arch" else rule_outcome(seq)
+    o = arch_outcome(seq) if payload["kind"] in VOCABS else rule_outcome(seq)
     ok = o[0] != "MISMATCH"
     text = f"{payload['kind']} builder history {' . '.join(s.show() for s in seq)}: specification expects {o[1] if not ok else 'the observed behaviour'}, real code -> {o[2] if not ok else o[0]}"
     return ok, text, {"outcome": [str(x) for x in o]}
@@ -202,7 +232,7 @@ def run(tier: str, only: str | None = None) -> int:
         items = [i for i in items if only in label_of(i)]
     rep.bounds = {
         "history_length": LEN[tier],
-        "vocabularies": {"LayeredArchitecture": [s.show() for s in ARCH_VOCAB], "LayerRule": [s.show() for s in LAYER_VOCAB]},
+        "vocabularies": {"LayeredArchitecture": [s.show() for s in ARCH_VOCAB], "LayeredArchitecture, three layers (length 6 / 7)": [s.show() for s in ARCH_VOCAB3], "LayerRule": [s.show() for s in LAYER_VOCAB]},
         "kernel": "module names: symbolic strings <= 3 chars, each passed as str or [str]",
     }
     rep.assumptions = ["the history dimension is enumerated by the symbolic executor (n-ary choices); it is a finite exhaustive walk, marked degenerate", "module names in the vocabulary: 'a', 'ba', 'mod' (single- and multi-character, sharing characters)"]
